@@ -24,6 +24,15 @@ False, nothing changes" -> signature C17/rejected-put-aborts/allowed-unhashable.
 the check was validated against a scratch copy with the candidate repair (TypeError of the
 membership test = not allowed).
 
+Strengthened after the seeded round 3 (all three detected at the quick tier):
+  C17-s7 restored FSM timer not tracked -> an accepted put after a restart is overwritten by
+         the expiry of the previous value       C17/accepted-value-expired-early/put-after-restart
+  C17-s8 loop/Unix time difference cached -> after a wall clock step the saved expiry is wrong
+         C17/wrong-initial-output, C17/accepted-value-expired-early/restored-value,
+         C17/expired-value-still-valid
+  C17-s9 restored remaining time clamped to the default duration (per-event duration ignored)
+         C17/accepted-value-expired-early/restored-value
+
 Sensitivity (8000 runs of the quick tier against the repaired scratch copy + one mutation;
 "caught" = exit 1; all mutations are in edzed/blocklib/sblocks2.py unless noted):
 
@@ -76,7 +85,12 @@ RULE = ("one run = one Input (60%) or InputExp (40%) with one of the 8 presence 
         "around the predicted expirations, per-event durations incl. 0 and infinite), 0-3 "
         "constructor probes (initdef / expired inside and outside the accepted set), and for 40% "
         "of the persistent runs a restart from the storage left behind (untouched / tampered / "
-        "entry deleted / new validator tables; InputExp: round trip only) followed by 0-4 puts. "
+        "entry deleted / new validator tables; InputExp: round trip only) followed by 0-4 puts; "
+        "half of the persistent InputExp runs are 'restart window' runs: a last accepted put "
+        "(default or per-event duration up to 5 s), stop while it is valid, restart before it "
+        "expires, puts around the restored expiry, time running on past the restored and the "
+        "newest expiry; 35% of the InputExp restart runs step the wall clock (+-0.3 s .. 1 h) "
+        "during the first simulation. "
         "non-trivial = at least one put was delivered to a running block; distinct = hash of "
         "(kind, combination, init source verdicts, per put: route, accepted or the rejecting "
         "validator, unhashable, tie/expiry position; restart shape)")
@@ -88,14 +102,20 @@ REACH_EXPECTED = ['rejected_by_allowed', 'rejected_by_check', 'rejected_by_schem
                   'tie_put_before_expiry', 'tie_expiry_before_put', 'put_after_expiry', 'restart',
                   'restart_tampered', 'restart_new_validators', 'inputexp_roundtrip_valid',
                   'inputexp_roundtrip_expired', 'zero_duration_put', 'empty_allowed',
-                  'all_three_validators']
+                  'all_three_validators', 'accepted_put_before_restored_expiry',
+                  'restart_inside_validity_window', 'restored_longer_than_default_duration',
+                  'restart_in_window_after_clock_jump']
 ASSUMPTIONS = [
     "'among allowed' and 'unchanged' mean Python == (DESIGN 3.3); 1, 1.0 and True are one value",
     "validators are total functions given by tables (check never raises; schema raises only "
     "subclasses of Exception); members of 'allowed' are hashable",
-    "InputExp: when the expiry timer fires is C04's business; here expirations are consumed as "
-    "observed and only the value part is judged; a state that expired during the downtime of a "
-    "restart has no documented outcome and is not judged",
+    "InputExp: expirations are consumed as observed (ties are legal both ways), but an accepted "
+    "value must last: an expiration earlier than (time the accepted put was sent + its duration) "
+    "on the monotonic clock is a violation, also after a restart (downtime measured on the wall "
+    "clock incl. injected steps; tolerance 2 us, 1 ms for restored timers) and a value that "
+    "outlives that moment by more than latency + 50 x cost + 50 ms is one too; a state that "
+    "expired during the downtime (or within 50 ms of it) has no documented outcome and is not "
+    "judged",
     "InputExp restore is only checked for round trip (DESIGN 3.3), never fed with tampered data",
 ]
 
@@ -224,7 +244,19 @@ def gen(rng, tier, index=0):
             plan['init_event'] = {'v': rng.choice(acc)}
     nops = rng.randint(1, 8)
     plan['ops'], t, deadline = _gen_ops(rng, kind, vals, pick, nops, cfg.get('duration'), deadline)
-    if kind == 'inputexp' and deadline is not None and rng.random() < 0.5:
+    # "restart window" stratum: a persistent InputExp is stopped while the value accepted last
+    # is still valid and restarted before that value expires
+    window = kind == 'inputexp' and cfg['persistent'] and rng.random() < 0.5
+    if window:
+        t = round(t + rng.choice([0.0, 0.01, 0.2]), 6)
+        op = {'t': t, 'v': rng.choice(acc), 'via': 'ext' if rng.random() < 0.65 else 'blk',
+              'dur': rng.choice([None, None, 1.0, 2.5, 5.0])}
+        if cfg['duration'] is None and op['dur'] is None:
+            op['dur'] = rng.choice([0.7, 1.0, 2.5, 5.0])
+        plan['ops'].append(op)
+        deadline = t + (cfg['duration'] if op['dur'] is None else op['dur'])
+        plan['stop_at'] = round(t + rng.choice([0.001, 0.1, 0.3]), 6)
+    elif kind == 'inputexp' and deadline is not None and rng.random() < 0.5:
         plan['stop_at'] = round(max(t, deadline) + rng.choice([0.001, 0.3]), 6)
     else:
         plan['stop_at'] = round(t + rng.choice([0.0, 0.001, 0.3]), 6)
@@ -239,9 +271,13 @@ def gen(rng, tier, index=0):
             probe['expired'] = {'v': rng.choice(acc) if acc and r < 0.5 else
                                 (rng.choice(rej) if rej and r < 0.8 else rng.choice(DOMAIN))}
         plan['ctor'].append(probe)
-    if cfg['persistent'] and rng.random() < 0.4:
+    if cfg['persistent'] and (window or rng.random() < 0.4):
         rs = {'val': None, 'initdef': cfg['initdef'], 'tamper': None,
               'downtime': rng.choice([0.0, 0.2, 3.0])}
+        if window:
+            rs['downtime'] = rng.choice([0.0, 0.05, 0.2])
+            if deadline - plan['stop_at'] - rs['downtime'] < 0.1:
+                rs['downtime'] = 0.0
         vals2, pick2 = vals, pick
         if kind == 'input':
             if rng.random() < 0.4:
@@ -260,9 +296,17 @@ def gen(rng, tier, index=0):
         rs['ops'], t2, dl2 = _gen_ops(rng, kind, vals2, pick2, rng.randint(0, 4),
                                       cfg.get('duration'), left if left and left > 0 else None)
         rs['stop_at'] = round(t2 + rng.choice([0.0, 0.001, 0.3]), 6)
-        if kind == 'inputexp' and dl2 is not None and rng.random() < 0.5:
-            rs['stop_at'] = round(max(t2, dl2) + 0.01, 6)
+        if kind == 'inputexp' and rng.random() < 0.6:
+            # let the time run on: past the restored and the newest expiration
+            rs['stop_at'] = round(max(t2, dl2 or 0.0, left or 0.0) + rng.choice([0.01, 0.2]), 6)
         plan['restart'] = rs
+        if kind == 'inputexp' and rng.random() < 0.35:
+            # wall clock step while the first simulation runs
+            i = rng.randrange(len(plan['ops']) + 1)
+            tj = 0.02 if i == 0 else round(plan['ops'][i - 1]['t'] + 0.0005, 6)
+            if tj <= plan['stop_at']:
+                plan['ops'].insert(i, {'t': tj, 'jump': rng.choice(
+                    [2.0, 30.0, 600.0, 3600.0, -2.0, -30.0, -600.0, -3600.0, 0.3, -0.3])})
     return plan
 
 
@@ -486,7 +530,9 @@ def run_phase(run, tag, kind, vspec, cfg, stored, init_event, ops, stop_at, info
         storage = SimStorage(initial=initial, clock=lambda: loop._ns)
         circuit.set_persistent_data(storage)
     st = {'depth': 0, 'origin': None, 'result': None, 'driver': None, 'initialising': True,
-          'stopped': False, 'dead': False, 'last_expiry_ns': None, 'prev_rejected': False}
+          'stopped': False, 'dead': False, 'last_expiry_ns': None, 'prev_rejected': False,
+          'deadline_from': None}
+    slack = (run.knobs['latency_ns'] + 50 * run.knobs['cost_ns']) / 1e9 + 0.05
 
     def alive():
         return circuit.is_ready() and circuit.error is None
@@ -514,12 +560,22 @@ def run_phase(run, tag, kind, vspec, cfg, stored, init_event, ops, stop_at, info
         else:
             model.state = blk.state if blk.state is not edzed.UNDEF else None
             model.value = copy.deepcopy(blk.sdata.get('input', UNDEF))
+            model.unknown_timer()
 
     def out_ok():
         exp = model.output()
         if exp is UNDEF:
             return blk.output is edzed.UNDEF
         return blk.output is not edzed.UNDEF and blk.output == exp
+
+    def check_overdue(where):
+        if kind == 'inputexp' and not st['dead'] and model.overdue(run.now(), slack):
+            run.violate('C17/expired-value-still-valid',
+                        f"{tag} {where}: t={run.now():.6f}: the value {canon(model.value)} should "
+                        f"have been replaced by the expired value at {model.deadline:.6f} "
+                        f"(accepted put + duration{', restored' if st['deadline_from'] == 'restore' else ''}); "
+                        f"output {canon(blk.output)}, state {canon(blk.state)}")
+            model.unknown_timer()
 
     def hook(phase, _blk, etype, arg):
         if phase == 'pre':
@@ -545,6 +601,15 @@ def run_phase(run, tag, kind, vspec, cfg, stored, init_event, ops, stop_at, info
                 run.fired('reach:expiry')
                 run.beh('expiry')
                 st['last_expiry_ns'] = loop._ns
+                if model.early(run.now()):
+                    site = ('restored-value' if st['deadline_from'] == 'restore' else
+                            'put-after-restart' if resume is not None else 'plain')
+                    run.violate(f"C17/accepted-value-expired-early/{site}",
+                                f"{tag}: the value {canon(model.value)} accepted last was replaced "
+                                f"by the expired value at t={run.now():.6f}; it must last until "
+                                f"{'for ever (infinite duration)' if model.deadline is None else format(model.deadline, '.6f')}"
+                                f" (time of the accepted put + duration"
+                                f"{'; restored after a restart' if st['deadline_from'] == 'restore' else ''})")
                 model.expire()
                 if not out_ok():
                     run.violate('C17/wrong-output-after-expiry',
@@ -553,13 +618,18 @@ def run_phase(run, tag, kind, vspec, cfg, stored, init_event, ops, stop_at, info
                     resync()
     fsmlib.hook_events(blk, hook)
 
-    def judge_put(label, op, value, ret, exc, before_out, before_state, tie):
-        now = run.now()
+    def judge_put(label, op, value, ret, exc, before_out, before_state, tie, now):
         was_valid = kind == 'inputexp' and model.state == 'valid'
         if kind == 'input':
             exp_ok, why = model.put(value)
         else:
+            pending_restored = (st['deadline_from'] == 'restore' and model.state == 'valid'
+                                and model.deadline is not None)
             exp_ok, why = model.put(value, op.get('dur'), now)
+            if exp_ok:
+                st['deadline_from'] = 'put'
+                if pending_restored:
+                    run.fired('reach:accepted_put_before_restored_expiry')
         info['puts'] += 1
         uh = unhashable(value)
         if uh:
@@ -671,8 +741,19 @@ def run_phase(run, tag, kind, vspec, cfg, stored, init_event, ops, stop_at, info
         if not alive():
             run.log('skipped', tag, n)
             return
+        if isinstance(op, dict) and 'jump' in op:
+            delta = op['jump']
+            if isinstance(delta, bool) or not isinstance(delta, (int, float)) or not delta:
+                raise PlanError('bad clock jump')
+            seams.jump_wall(delta)
+            run.fired('fault:clock_jump_fwd' if delta > 0 else 'fault:clock_jump_back')
+            run.log('clock-jump', tag, delta)
+            run.beh('jump', delta > 0)
+            return
         if not isinstance(op, dict) or 'v' not in op:
             raise PlanError('bad op')
+        check_overdue(f"before put {n}")
+        sent_at = run.now()
         value = copy.deepcopy(op['v'])
         data = {'value': copy.deepcopy(value)}
         if op.get('dur') is not None:
@@ -717,11 +798,12 @@ def run_phase(run, tag, kind, vspec, cfg, stored, init_event, ops, stop_at, info
             exc = err
         finally:
             st['driver'] = None
-        judge_put(label, op, value, ret, exc, before_out, before_state, tie)
+        judge_put(label, op, value, ret, exc, before_out, before_state, tie, sent_at)
 
     def quiescent():
         if st['initialising'] or st['stopped'] or st['dead'] or not alive():
             return
+        check_overdue('at an idle point')
         if not out_ok():
             run.violate('C17/output-not-last-accepted',
                         f"{tag}: at an idle point the output is {canon(blk.output)}, the last "
@@ -731,6 +813,7 @@ def run_phase(run, tag, kind, vspec, cfg, stored, init_event, ops, stop_at, info
     final = {}
 
     async def main():
+        t_begin = run.now()
         simtask = asyncio.create_task(circuit.run_forever())
         init_err = None
         try:
@@ -750,14 +833,15 @@ def run_phase(run, tag, kind, vspec, cfg, stored, init_event, ops, stop_at, info
                 if src == 'restored':
                     run.fired('reach:restored_accepted' if ok else 'reach:restored_rejected')
         elif resume is None:
-            model.start(run.now())
+            model.start(t_begin)
+            st['deadline_from'] = 'init'
         else:
             exp = resume['expect']
             if exp is None:
                 judged = False
             else:
-                model.restore(exp['state'], copy.deepcopy(exp['value']), exp['remaining'],
-                              run.now())
+                model.restore(exp['state'], copy.deepcopy(exp['value']), exp['deadline'])
+                st['deadline_from'] = 'restore'
                 run.fired('reach:inputexp_roundtrip_' + exp['state'])
         run.log('start', tag, kind, canon(cfg), canon(restored), canon(init_value),
                 canon(sources), canon(model.output()), canon(blk.output), canon(init_err))
@@ -808,6 +892,7 @@ def run_phase(run, tag, kind, vspec, cfg, stored, init_event, ops, stop_at, info
             run.at(float(stop_at), fut.set_result, None)
             await fut
             if not st['dead'] and alive():
+                check_overdue('before the stop')
                 if not out_ok():
                     run.violate('C17/output-not-last-accepted',
                                 f"{tag}: before the stop the output is {canon(blk.output)}, the "
@@ -815,7 +900,8 @@ def run_phase(run, tag, kind, vspec, cfg, stored, init_event, ops, stop_at, info
                 if kind == 'inputexp':
                     final.update(state=model.state, value=copy.deepcopy(model.value),
                                  remaining=None if model.deadline is None
-                                 else model.deadline - run.now(), at=run.now())
+                                 else model.deadline - run.now(), at=run.now(),
+                                 known=model.deadline_known)
         err = None
         try:
             await circuit.shutdown()
@@ -863,7 +949,8 @@ def execute(plan, trace=False):
                 and not run.violations):
             downtime = float(rs.get('downtime', 0.0))
             p1_end = run.now()
-            wall = 1_700_000_000_000_000 + int((p1_end + downtime) * 1e6)
+            # the downtime is measured on the wall clock as the first run left it (incl. steps)
+            wall = seams.wall_us() + int(downtime * 1e6)
             run, steps, sim_s = restart_run(run, plan['knobs'], wall)
             run.fired('reach:restart')
             content = out['content']
@@ -887,20 +974,28 @@ def execute(plan, trace=False):
                 if rs.get('val') is not None or tamper:
                     raise PlanError('InputExp restarts are round trips only')
                 fin = out['final']
-                if fin:
+                if fin and fin.get('known', True):
                     if fin['state'] == 'expired':
                         resume['expect'] = {'state': 'expired', 'value': fin['value'],
-                                            'remaining': None}
+                                            'deadline': None}
                     elif fin['remaining'] is None:
                         resume['expect'] = {'state': 'valid', 'value': fin['value'],
-                                            'remaining': None}
+                                            'deadline': None}
                     else:
-                        # time left when the second simulation starts: the first one went on
-                        # for (end - fin['at']) seconds after the snapshot (its clean-up)
+                        # time left when the second simulation starts (monotonic time: put +
+                        # duration; wall clock steps do not count): the first one went on for
+                        # (end - fin['at']) seconds after the snapshot (its clean-up)
                         left = fin['remaining'] - (p1_end - fin['at']) - downtime
                         if left > 0.05:
                             resume['expect'] = {'state': 'valid', 'value': fin['value'],
-                                                'remaining': left}
+                                                'deadline': left}
+                            run.fired('reach:restart_inside_validity_window')
+                            dflt = plan['cfg'].get('duration')
+                            if dflt is not None and left > dflt + 0.05:
+                                run.fired('reach:restored_longer_than_default_duration')
+                            if any('jump' in op for op in plan.get('ops') or []
+                                   if isinstance(op, dict)):
+                                run.fired('reach:restart_in_window_after_clock_jump')
             run.log('restart', canon(content), canon(tamper), canon(resume['expect']))
             run.beh('restart', bool(tamper), rs.get('val') is not None)
             run_phase(run, 'p2', kind, vspec2, cfg2, None, None, rs.get('ops') or [],
